@@ -92,7 +92,7 @@ def pexitAssemble (bmin bmax : α) (evs : List (Pv α)) (zv zl : List α) : List
   let e0 : List α := evs.map fun _ => 0
   let e1 := scatter (evs.map (pValid bmin bmax)) e0 zv
   let e2 := scatter (evs.map (pLow bmin)) e1 zl
-  let e3 := scatter (evs.map (pHigh bmax)) e2 ((select (evs.map (pHigh bmax)) evs).map fun _ => log10 eps32)
+  let e3 := scatter (evs.map (pHigh bmax)) e2 ((select (evs.map (pHigh bmax)) evs).map fun _ => log10Eps32)
   e3.map fun x => pow 10 x
 
 /-- one batch call: new table state (floored in place) and the result -/
